@@ -66,7 +66,8 @@ def gen_plan(rng, tier, index):
             'n_centers_big': rng.pick([999, 1000, 1001, 1002, 1100, 1331, 2003]), 'n_vox_big': rng.randint(6, 40),
             'dtype': rng.pick(['float64', 'float64', 'float32', 'int64', 'int16']),
             'mask_layout': rng.pick(['C', 'C', 'F', 'T']), 'centre_pick': rng.pick(['all', 'all', 'subset', 'permuted']),
-            'model_kind': rng.pick(['fixed', 'fixed', 'weighted', 'mixed', 'single']), 'theta_salt': rng.pick([0, 0, 1, 2, 3])}
+            'model_kind': rng.pick(['fixed', 'fixed', 'weighted', 'mixed', 'single']), 'theta_salt': rng.pick([0, 0, 1, 2, 3]),
+            'mask_vals': rng.pick(['binary', 'binary', 'binary', 'labels', 'frac', 'signed'])}
     return plan
 
 
@@ -364,6 +365,15 @@ def execute(plan, ctx):
         return
     shape = plan['shape']
     mask = np.array(plan['bits']).reshape(shape).astype(plan.get('mask_dtype', 'bool'))      # "binary brain mask": True/False or 0/1
+    mv = plan.get('mask_vals', 'binary')
+    if mv != 'binary':
+        # the mask voxels are the non-zero voxels: an atlas of region labels, a partial-volume map or a signed map with the
+        # same support selects the same voxels
+        k = np.arange(mask.size).reshape(shape)
+        vals = {'labels': (1 + k % 4).astype('int16'), 'frac': (1 + k % 4) / 4.0 - 0.125,
+                'signed': np.where(k % 2 == 0, -1.0, 0.5)}[mv]
+        mask = np.where(mask != 0, vals, 0).astype(vals.dtype)
+        ctx.behaviour('mask_vals', mv)
     lay = plan.get('mask_layout', 'C')
     if lay == 'F':
         mask = np.asfortranarray(mask)                      # same values, Fortran memory order
